@@ -376,8 +376,53 @@ def finding_key(c, verdict):
     return "c06:%s:%s" % (verdict, c.w[0]), verdict
 
 
+def _elems(sx):
+    """Top-level elements of an S-expression string "(a b (c d))" -> ["a", "b", "(c d)"]."""
+    sx = sx.strip()
+    if not (sx.startswith("(") and sx.endswith(")")):
+        return None
+    out, depth, cur = [], 0, ""
+    for ch in sx[1:-1]:
+        if ch == "(":
+            depth += 1
+        elif ch == ")":
+            depth -= 1
+        if ch == " " and depth == 0:
+            if cur:
+                out.append(cur)
+            cur = ""
+        else:
+            cur += ch
+    if cur:
+        out.append(cur)
+    return out
+
+
 def project(pos, val):
-    """The inner value of a decoded wrapper (position independence)."""
+    """The inner value of a decoded wrapper (position independence): None when the shape is not the wrapper's."""
+    e = _elems(val or "")
+    if not e:
+        return None
+    if pos == "slice" and e[0] == "slice" and len(e) == 2:
+        return [e[1]]
+    if pos == "array" and e[0] == "arr" and len(e) == 3:
+        return [e[1], e[2]]
+    if pos == "ptr" and e[0] == "ptr" and len(e) == 2:
+        return [e[1]]
+    if pos == "ptr3" and e[0] == "ptr":
+        x = val
+        for _ in range(3):
+            ee = _elems(x)
+            if not ee or ee[0] != "ptr" or len(ee) != 2:
+                return None
+            x = ee[1]
+        return [x]
+    if pos == "mapval" and e[0] == "map" and len(e) == 2:
+        kv = _elems(e[1])
+        return [kv[1]] if kv and len(kv) == 2 else None
+    if pos == "mapkey" and e[0] == "map" and len(e) == 2:
+        kv = _elems(e[1])
+        return [kv[0]] if kv and len(kv) == 2 else None
     return None
 
 
@@ -407,6 +452,33 @@ def judge(ctx, env, cases, verbose=False):
                  "detail": short(c), "failing_input": False,
                  "correspondence": "Model/DecVal.v dec vs io.Decoder.Decode"})
     ctx.note("unmodelled_paths", unmodelled)
+    # "the outcome is the same in every position": the implementation's own results, top level against wrapped
+    tops = {}
+    for c in cases:
+        if c.pos == "top" and c.go:
+            tops[(G.wire_sexp(c.w), G.type_sexp(c.t), c.opts.key())] = c
+    for c in cases:
+        if c.inner is None or not c.go or c.inner[0][0] == "n":
+            continue
+        top = tops.get((G.wire_sexp(c.inner[0]), G.type_sexp(c.inner[1]), c.opts.key()))
+        if top is None:
+            continue
+        tv = top.go.get("val") or ""
+        if c.pos == "mapkey" and (tv.startswith("(iface (bytes)") or tv.startswith("(iface (slice") or tv.startswith("(iface (map")):
+            continue       # a Go map key cannot hold a slice or a map: the language, not the decoder
+        ctx.bump("position_pairs")
+        gt, gp = go_class(top), go_class(c)
+        same = gt == gp
+        if same and gt == "ok":
+            inner = project(c.pos, c.go.get("val"))
+            if inner is not None:
+                same = all(x == top.go.get("val") for x in inner)
+        if not same:
+            bad += 1
+            ctx.report("c06:position-dependent:%s:%s" % (c.pos, c.inner[0][0]),
+                       "the same token decodes differently at top level and as %s: %s vs %s" % (
+                           c.pos, (top.go.get("val") or gt)[:80], (c.go.get("val") or gp)[:80]),
+                       {"case": c.to_replay_json(), "detail": short(c), "top": short(top), "failing_input": True})
     # the property's own oracle on the implementation's behaviour (every case, agreeing or not)
     groups = {}
     for c in cases:
